@@ -33,7 +33,7 @@ def generate(lalrpop_bin, g, mode, ascent=False, workdir=None, extra_args=(), pr
     e.update(env)
     try:
         p = subprocess.run([lalrpop_bin, "-f"] + list(extra_args) + ["g.lalrpop"], cwd=d, env=e, stdout=subprocess.PIPE,
-                           stderr=subprocess.STDOUT, text=True, timeout=120, errors="replace")
+                           stderr=subprocess.STDOUT, text=True, timeout=1200, errors="replace")
         out = p.stdout
         if p.returncode == 0 and os.path.exists(rs):
             status = "ok"
